@@ -987,7 +987,7 @@ pub fn run_history(sc: &C13Scenario, scratch: &str) -> HistOutcome {
 pub fn replay(sc: &C13Scenario, scratch: &str) -> Option<String> {
     let out = run_history(sc, scratch);
     let want = sc.expect.as_ref().map(|e| e.class.clone()).unwrap_or_default();
-    out.violations.iter().find(|v| want.is_empty() || v.class == want).map(|v| format!("{} at op {}: {}", v.class, v.step, v.detail))
+    out.violations.iter().find(|v| want.is_empty() || v.class.starts_with(&want)).map(|v| format!("{} at op {}: {}", v.class, v.step, v.detail))
 }
 
 pub fn mamba_bin_available() -> bool {
